@@ -52,10 +52,10 @@ def run_guards(c):
         c.broken.append("locks guard harness does not compile against the repo: " + hlog[-1500:])
         return False
     if c.replay:
-        cases = [x for x in vlib.read_replay(c.replay) if not x[1] or x[1][0].split()[0] not in ("spin",)]
+        cases = [x for x in vlib.read_replay(c.replay) if not x[1] or x[1][0].split()[0] not in ("spin", "stress")]
     else:
         cases = gen.guard_corpus()
-        n = 1500 if c.tier == "quick" else 20000
+        n = 1500 if c.tier == "quick" else 60000
         for i in range(n):
             cases.append(("g%d" % i, gen.gen_guard_case(c.rng, c.rng.choice([4, 8, 14, 25, 60]))))
         if c.tier == "thorough":
@@ -87,6 +87,7 @@ def spin_nontrivial(cid, lines, ri):
 
 def gen_spin_orders(c):
     """regenerate coq/Gen/SpinOrders.v from the source and check its two vm_compute obligations"""
+    c._locks_gen_done = True
     rc, o, e = vlib.sh([sys.executable, os.path.join(vlib.ROOT, "translator/gen_locks.py")], timeout=300)
     names = ["orders_match_model", "orders_sufficient"]
     if rc != 0:
@@ -115,7 +116,8 @@ def gen_spin_orders(c):
 
 
 def run_spin(c):
-    gen_spin_orders(c)
+    if not getattr(c, "_locks_gen_done", False):
+        gen_spin_orders(c)
     okm, mlog = vlib.coq_make(["Locks/SpinExtract.vo"])
     okd, drv, dlog = vlib.ocaml_build("spin_m", ["spin_model"], os.path.join(HERE, "spin_driver.ml"))
     okh, har, hlog = vlib.cxx_build("spin_h", os.path.join(HERE, "spin_harness.cpp"), extra=["-pthread"])
@@ -174,3 +176,45 @@ def run(c):
     ok1 = run_guards(c)
     ok2 = run_spin(c)
     return ok1 and ok2
+
+
+def coqchk(c, lib):
+    """thorough tier: re-check the compiled property file and its dependencies with the stand-alone checker"""
+    rc, o, e = vlib.sh(["coqchk", "-silent", "-o", "-Q", ".", "FV", lib], cwd=vlib.COQ, timeout=1500)
+    txt = o + e
+    m = re.search(r"\* Axioms:\s*(.*?)\n\s*\n", txt, re.S)
+    ax = m.group(1).strip() if m else "?"
+    c.extra["coqchk"] = {"rc": rc, "axioms": ax}
+    if rc != 0 or ax != "<none>":
+        c.broken.append("coqchk %s: rc=%s axioms=%s" % (lib, rc, ax[:200]))
+
+
+def widen(c):
+    """P or C broke but no oracle failure yet: search harder for a failing input (longer TSan stress on more
+    seeds, the exhaustive guard enumeration of the thorough tier)."""
+    if c.replay:
+        return
+    har = os.path.join(vlib.BUILD, "bin", "guard_h")
+    strs = os.path.join(vlib.BUILD, "bin", "spin_stress")
+    if os.path.exists(har):
+        cases = gen.guard_exhaustive(5, 3, 2)
+        impl = vlib.run_cases(har, cases)
+        for cid, ls in cases:
+            r = impl.get(cid)
+            if r:
+                for o in r["oracle"]:
+                    k, _, m = o.partition(" ")
+                    c.oracle(k, m, cid, ls)
+    if os.path.exists(strs):
+        stress = [(cid + "w", [l.replace(" 3000", " 30000") for l in ls]) for cid, ls in gen.stress_cases("quick", c.rng)]
+        res = vlib.run_cases(strs, stress, shards=3, timeout=1200)
+        for cid, ls in stress:
+            r = res.get(cid)
+            if not r:
+                continue
+            for o in r["oracle"]:
+                k, _, m = o.partition(" ")
+                c.oracle(k, m, cid, ls)
+            if r.get("crash") and "ThreadSanitizer: data race" in r["crash"]:
+                c.oracle("race", "ThreadSanitizer: data race between two critical sections: lock()/unlock() do not order them", cid, ls)
+    c.notes.append("widened search: exhaustive guard scripts (5 ops, 3 guards, 2 mutexes) and 10x longer TSan stress")
